@@ -15,7 +15,7 @@ for f in sorted(glob.glob('/verif/seeded/*/meta.json')):
                 break
     caught = m.get('caught_by', [])
     how = 'failing input' if m.get('caught_with_failing_input') else ('unproved (no-failing-input-found)' if caught else 'NOT CAUGHT')
-    rnd = {'a': 1, 'b': 1, 'c': 1, 'd': 2, 'e': 2, 'f': 2, 'g': 3, 'h': 3, 'i': 3, 'j': 4, 'k': 4, 'l': 4, 'm': 5, 'n': 5, 'o': 5, 'p': 6, 'q': 6, 'r': 6}.get(name[-1], '?')
+    rnd = {'a': 1, 'b': 1, 'c': 1, 'd': 2, 'e': 2, 'f': 2, 'g': 3, 'h': 3, 'i': 3, 'j': 4, 'k': 4, 'l': 4, 'm': 5, 'n': 5, 'o': 5, 'p': 6, 'q': 6, 'r': 6, 's': 7, 't': 7, 'u': 7}.get(name[-1], '?')
     rows.append((name, rnd, m.get('property'), title, 'yes' if m.get('demo_ok') else 'NO', {True: 'yes', False: 'NO', None: 'pending'}[m.get('tests_ok')],
                  ', '.join(caught) or '-', how))
 with open('/verif/seeded/README.md', 'w') as f:
@@ -24,7 +24,7 @@ with open('/verif/seeded/README.md', 'w') as f:
             'worktree, pinned suite with the patch, `./check` quick/thorough against the patched /repo, replay excerpt).\n\n'
             'Produced by fresh sub-agents that saw only the property text and a scratch worktree of /repo; re-confirmed by `tools/seed_eval.py` and '
             '`tools/seed_tests.py`. None of these is committed to /repo.\n\n'
-            'Rounds: 1 = labels a-c, 2 = d-f, 3 = g-i, 4 = j-l, 5 = m-o, 6 = p-r; DESIGN.md section 9 says what each round taught. "caught by" is the result of the registered '
+            'Rounds: 1 = labels a-c, 2 = d-f, 3 = g-i, 4 = j-l, 5 = m-o, 6 = p-r, 7 = s-u; DESIGN.md section 9 says what each round taught. "caught by" is the result of the registered '
             'checks as they are now.\n\n'
             '| change | round | property | what | demo fails only with change | pinned suite still passes | caught by | how |\n|---|---|---|---|---|---|---|---|\n')
     for r in rows:
